@@ -233,6 +233,11 @@ func main() {
 		Ops: []jop{{T: "merge", Target: 3, Merged: []uint64{1}}, {T: "replace", Target: 0, New: 9}, {T: "replace", Target: 3, New: 2}, {T: "replace", Target: 2, New: 5}}})
 	addChain(jcase{Kind: "chain", G: g2, Paints: []blk.Paint{blk.Fill(4), blk.Cyc([6]int{8, 0, 0, 16, 16, 16}, 1, 1, 3)},
 		Ops: []jop{{T: "merge", Target: 60, Merged: []uint64{1, 2}}, {T: "replace", Target: 60, New: 3}, {T: "replace", Target: 3, New: 4}, {T: "replace", Target: 4, New: 0}, {T: "replace", Target: 0, New: 8}}})
+	// an odd number of sub-blocks (24^3): SBIndices is a detached copy there, so the in-place edit of
+	// MergeLabels must be written back before the block is serialised or edited again
+	addChain(jcase{Kind: "chain", G: [3]int{3, 3, 3}, Paints: []blk.Paint{blk.Hash([6]int{0, 0, 0, 24, 24, 24}, 4, 7, []uint64{1, 2, 3, 4})},
+		Ops: []jop{{T: "merge", Target: 1, Merged: []uint64{2}}, {T: "merge", Target: 50, Merged: []uint64{3}}, {T: "replace", Target: 1, New: 9},
+			{T: "replacemany", Map: [][2]uint64{{9, 4}, {4, 9}}}, {T: "split", Target: 4, New: 77, RLEs: [][4]int32{{0, 0, 0, 24}, {5, 3, 20, 10}}}}})
 	// solid block through every table-level operation
 	addChain(jcase{Kind: "chain", G: g2, Paints: []blk.Paint{blk.Fill(4)}, Ops: []jop{
 		{T: "replace", Target: 4, New: 8}, {T: "merge", Target: 2, Merged: []uint64{8}}, {T: "replacemany", Map: [][2]uint64{{2, 3}}},
